@@ -336,6 +336,7 @@ def jobs(tier):
                 out.append(Job('C14', 's1.flood', t_flood, dict(n_range=[a, a + 9], retry=True)))
     out.append(Job('C14', 's1.mixed_clock', t_mixed_clock, dict(N=3), witnesses=('accepted',)))   # (N=2 would be F11: two un-awaited children evict their parent)
     out += mk('C14', 'roots3', S.roots3())
+    out += mk('C14', 'dispatch_then_block', S.dispatch_then_block(2))
     out += mk('C14', 'child/await/k1', S.child('await', k=1))
     out += mk('C14', 'flood_idle', S.flood_idle())
     out += mk('C14', 'deep4/await', S.deep4('await'))
